@@ -8,7 +8,11 @@ percent) is an ARBITRARY function (its values at the temperatures used are free 
 every solid material that obeys the Material API; a further harness puts the real library correlations (HT9, UZr,
 ...) in the loop.
 """
+import importlib
+import inspect
 import math
+import pkgutil
+import sys
 
 import z3
 
@@ -26,6 +30,7 @@ import armi.utils.units as unitsmod
 from armi.materials import material as matmod
 from armi.materials import custom as custommod
 from armi.reactor import blocks
+import armi.materials as matpkg
 
 # ---------------------------------------------------------------------------------------------------------
 # shims
@@ -86,7 +91,21 @@ class _ScalingSqrtMath:
         return cache[key]
 
 
-shims.patch(cmod, np=shims.np_shim, float=shims.float_shim)
+class _QuietRunLog:
+    """component.runLog stand-in: drops the multi-line error text that accompanies the documented RuntimeError of
+    getThermalExpansionFactor (hundreds of paths end there on purpose); everything else goes to the real runLog."""
+
+    def __getattr__(self, n):
+        return getattr(cmod_runLog, n)
+
+    @staticmethod
+    def error(msg, *a, **kw):
+        if not str(msg).startswith("Linear expansion percent may not be implemented"):
+            cmod_runLog.error(msg, *a, **kw)
+
+
+cmod_runLog = cmod.runLog
+shims.patch(cmod, np=shims.np_shim, float=shims.float_shim, runLog=_QuietRunLog())
 shims.patch(compmod, np=shims.np_shim)
 shims.patch(blkmod, np=shims.np_shim)
 shims.patch(basicmod, math=shims.math_shim)
@@ -94,12 +113,31 @@ shims.patch(complexmod, math=_ScalingSqrtMath())
 shims.patch(comps, math=shims.math_shim)
 shims.patch(unitsmod, float=shims.float_shim)
 
+# the library materials (real Sodium filler, library-material harness): proxy-aware math / numpy / interp
+_np = sys.modules["numpy"]
+for _mi in pkgutil.walk_packages(matpkg.__path__, matpkg.__name__ + "."):
+    if "test" in _mi.name:
+        continue
+    _m = importlib.import_module(_mi.name)
+    _names = {}
+    if getattr(_m, "math", None) is math:
+        _names["math"] = shims.math_shim
+    if getattr(_m, "np", None) is _np:
+        _names["np"] = shims.np_shim
+    if getattr(_m, "interp", None) is _np.interp:
+        _names["interp"] = shims.np_shim.interp
+    if _names:
+        shims.patch(_m, **_names)
+
 STUBS = ["symx sqrt memoised per path on the normal form of its argument (same argument -> same root proxy)",
          "component.np / composites.np / blocks.np -> object-array aware numpy shim (np.isnan(proxy) = False)",
          "component.float, units.float -> identity on proxies (setTemperature / getTk call float())",
+         "component.runLog -> same log minus the error text printed before the documented RuntimeError",
          "basicShapes.math / components.math -> shim with algebraic sqrt; math.pi and sqrt of constants stay floats",
          "complexShapes.math -> the same, plus sqrt(k*k*y) = k*sqrt(y) for the (positive) expansion factors k "
-         "(Helix area; identity decided by the rational-function normal form)"]
+         "(Helix area; identity decided by the rational-function normal form)",
+         "armi.materials.*: math -> shim with algebraic sqrt, np -> object-array aware numpy shim, numpy.interp -> "
+         "forking piecewise-linear interpolation (real Sodium filler and the library-material harness)"]
 
 # ---------------------------------------------------------------------------------------------------------
 # materials with a symbolic law
@@ -321,9 +359,10 @@ def check_dims(ctx, c, coldValues, f, what):
                         scale=abs(v) + LO)
 
 
-SOLID_BOUNDS = ("every cold dimension in [0.01,100] cm under the shape's validity precondition, walls >= 0.1 % (inner dimensions: "
-                "structurally 0.0 in the solid variant, symbolic in the hollow one), mult in [1,500], number density "
-                "in [1e-6,1], all temperatures in [0,1500] C; material law arbitrary (its values at the temperatures used are free inputs) with -50 < L(T) < 100 percent")
+SOLID_BOUNDS = ("every cold dimension in [0.01,100] cm under the shape's validity precondition, walls >= 0.1 % (inner "
+                "dimensions: structurally 0.0 in the solid variant, symbolic in the hollow one), mult in [1,500], "
+                "number density in [1e-6,1], all temperatures in [0,1500] C; material law arbitrary (its values at "
+                "the temperatures used are free inputs) with -50 < L(T) < 100 percent")
 
 
 # ---------------------------------------------------------------------------------------------------------
@@ -696,30 +735,6 @@ def fluids_and_custom_materials_keep_their_dimensions(ctx, shape, hollow, mat):
 
 # ---------------------------------------------------------------------------------------------------------
 # the real library correlations in the loop
-
-import importlib  # noqa: E402
-import inspect  # noqa: E402
-import pkgutil  # noqa: E402
-import sys  # noqa: E402
-
-import armi.materials as matpkg  # noqa: E402
-
-_np = sys.modules["numpy"]
-for _mi in pkgutil.walk_packages(matpkg.__path__, matpkg.__name__ + "."):
-    if "test" in _mi.name:
-        continue
-    _m = importlib.import_module(_mi.name)
-    _names = {}
-    if getattr(_m, "math", None) is math:
-        _names["math"] = shims.math_shim
-    if getattr(_m, "np", None) is _np:
-        _names["np"] = shims.np_shim
-    if getattr(_m, "interp", None) is _np.interp:
-        _names["interp"] = shims.np_shim.interp
-    if _names:
-        shims.patch(_m, **_names)
-STUBS.append("armi.materials.*: math -> shim with algebraic sqrt, np -> object-array aware numpy shim, numpy.interp "
-             "-> forking piecewise-linear interpolation (library-material harness)")
 
 EXP_KEYS = ("linear expansion percent", "linear expansion", "density")
 DEFAULT_WINDOW_C = (20.0, 600.0)
